@@ -957,7 +957,7 @@ func (s *PortStatus) UnmarshalBinary(data []byte) error {
 	s.Reason = data[n]
 	n += 1
 	copy(s.pad, data[n:])
-	n += len(s.pad)
+	n += 7 // pad
 
 	err = s.Desc.UnmarshalBinary(data[n:])
 	return err
